@@ -52,8 +52,11 @@ def handle (op : String) (args : List String) (impl : String) : Verdict :=
       let ds := showDec d
       let absd := showDec ⟨i.natAbs, s⟩
       let nd := Spec.numDigits i.natAbs
+      -- a derived view of value `v` at the same scale: sign, scale, digit count, zero test, owned copy, equality both ways
+      let view (v : Int) : String := signName v ++ "," ++ toString s ++ "," ++ toString (Spec.numDigits v.natAbs) ++ "," ++
+        (if v == 0 then "1" else "0") ++ "," ++ showDec ⟨v, s⟩ ++ ",11"
       let expect := String.intercalate "|" [ds, signName i, toString s, signName i, toString s, toString nd, ds, ds, ds, absd, ds, ds, ds, ds,
-        showDec ⟨i, 0⟩, toString nd]
+        showDec ⟨i, 0⟩, toString nd, view i.natAbs, view (-i), view i.natAbs, view (-(i.natAbs : Int))]
       judgeStr expect expect impl "ctor"
     | _, _ => badInput "ctor args"
   | "normalized", [a] =>
